@@ -128,7 +128,7 @@ fn encode_plain(w: &Workload) -> Result<Stream, String> {
     let mut w2 = w.clone();
     w2.faults.clear();
     let mut src = SimSource::new(&w2);
-    let cfg = w2.cfg.build(false, None, w2.block);
+    let cfg = w2.cfg.build(false, None, w2.config_block());
     flacenc::encode_with_fixed_block_size(&cfg, &mut src, w2.block).map_err(|e| format!("{e}"))
 }
 
@@ -157,7 +157,7 @@ fn perform_inner(op: &Op, prep: Prepared) -> OpResult {
         (_, Prepared::Failed(e)) => OpResult::Err(format!("preparation failed: {e}")),
         (Op::EncStream { w }, _) => {
             let mut src = SimSource::new(w);
-            let cfg = w.cfg.build(false, None, w.block);
+            let cfg = w.cfg.build(false, None, w.config_block());
             match flacenc::encode_with_fixed_block_size(&cfg, &mut src, w.block) {
                 Ok(s) => {
                     let mut sink = ByteSink::new();
@@ -170,7 +170,7 @@ fn perform_inner(op: &Op, prep: Prepared) -> OpResult {
             }
         }
         (Op::EncFrame { w, frame_number, fill, as_bytes }, _) => {
-            let cfg = w.cfg.build(false, None, w.block);
+            let cfg = w.cfg.build(false, None, w.config_block());
             let si = match flacenc::component::StreamInfo::new(w.rate, w.channels, w.bits) {
                 Ok(si) => si,
                 Err(e) => return OpResult::Err(format!("{e}")),
